@@ -3,11 +3,11 @@
 
      Theorem lang_is_spec : forall s : list N,
        latin1 s = true -> clean_lang s = true -> no_directive s = true -> no_pragma s = true ->
-       no_cr s = true -> has_colon_literal s = false ->
+       no_cr s = true ->
        lexemes_lang s = split_spec LangLexer.keywords_2008 s.
 
-   i.e. on a Latin-1, CR-free text without grave accent, without the text `vhdl_ls`, without
-   `digit ':' alnum`, on which the model of TokenStream::new pushes no diagnostic, the texts between the
+   i.e. on a Latin-1, CR-free text without grave accent, without the text `vhdl_ls`,
+   on which the model of TokenStream::new pushes no diagnostic, the texts between the
    start and end positions of its tokens are exactly the lexemes of `split_spec`.
 
    Structure of the proof
@@ -28,8 +28,7 @@
 From Coq Require Import List NArith Arith Bool Lia ZifyBool ZifyN.
 Import ListNotations.
 From RH Require Import Text.Contents Text.ContentsProofs Text.Reader Text.ReaderProofs Text.ReaderInv
-  Lex.LangLexer Lex.LexSpec Lex.LangLexerProofs Lex.LangLexerNoCrash Lex.LangLexerText Lex.LangLexerSlices
-  Lex.LangLexerComments Lex.LexGrammar Lex.Agree.
+  Lex.LangLexer Lex.LexSpec Lex.LangLexerProofs Lex.LexGrammar Lex.Agree.
 Open Scope N_scope.
 
 #[local] Arguments N.add : simpl never.
@@ -40,6 +39,33 @@ Open Scope N_scope.
 #[local] Arguments N.leb : simpl never.
 #[local] Arguments N.pow : simpl never.
 #[local] Arguments N.modulo : simpl never.
+
+(* inversion of a bind that returned Ok *)
+Local Tactic Notation "bok" hyp(H) ident(x) ident(st) ident(P) :=
+  apply bind_ok_inv in H; destruct H as [x [st [P H]]].
+Lemma try_ok_inl : forall A (m : M A) st x st', try m st = (Ok (inl x), st') -> m st = (Ok x, st').
+Proof. intros A m st x st' H. unfold try in H. destruct (m st) as [[a|e|a] s]; try discriminate. congruence. Qed.
+Lemma of_result_ok : forall A (r : A + terr) st x st', of_result r st = (Ok x, st') -> r = inl x /\ st' = st.
+Proof. intros A [a|e] st x st' H; unfold of_result, ret, throw in H; [injection H as <- <-; auto|discriminate]. Qed.
+Lemma lowercase_fix : forall c x, lowercase c = x -> (is_digit x || (x =? 46) || (x =? 95)) = true -> c = x.
+Proof.
+  intros c x H Hx. unfold lowercase in H.
+  destruct (c =? 215); [exact H|].
+  destruct (in_range 65 90 c || in_range 192 214 c || in_range 216 222 c) eqn:E; [|exact H].
+  exfalso. unfold is_digit in *. unfold in_range in *. lia.
+Qed.
+Lemma f64_ok_identity : forall l,
+  forallb (fun c => is_digit c || (c =? 46)) (filter (fun x => negb (x =? 95)) (map lowercase l)) = true ->
+  map lowercase l = l.
+Proof.
+  induction l as [|c l IH]; intro H; [reflexivity|]. cbn [map filter] in H.
+  destruct (lowercase c =? 95) eqn:E95; cbn [negb] in H.
+  - cbn [map]. rewrite (IH H). f_equal. symmetry. apply lowercase_fix with (x := lowercase c); [reflexivity|].
+    rewrite E95. apply orb_true_r.
+  - cbn [forallb] in H. apply andb_true_iff in H. destruct H as [H1 H2].
+    cbn [map]. rewrite (IH H2). f_equal. symmetry. apply lowercase_fix with (x := lowercase c); [reflexivity|].
+    rewrite E95, orb_false_r. exact H1.
+Qed.
 
 (* ------------------------------------------------------------------------------------------ *)
 (* 1. facts about the reference splitter                                                        *)
@@ -153,22 +179,17 @@ Proof. intros kws f prev s s' H. destruct f as [|f]; [reflexivity|]. rewrite !sp
 (* ------------------------------------------------------------------------------------------ *)
 Definition chok (c : N) : bool := (c <? 256) && negb (c =? 13) && negb (c =? 96).
 Definition good (r : list N) : bool :=
-  forallb chok r && negb (has_colon_literal r) && negb (contains VHDL_LS r).
+  forallb chok r && negb (contains VHDL_LS r).
 
-Lemma hcl_tl : forall a r, has_colon_literal (a :: r) = false -> has_colon_literal r = false.
-Proof.
-  intros a r H. destruct r as [|b [|c r']]; try reflexivity.
-  cbn [has_colon_literal] in H. apply orb_false_iff in H. destruct H as [_ H]. exact H.
-Qed.
 Lemma contains_tl : forall p a r, contains p (a :: r) = false -> contains p r = false.
 Proof. intros p a r H. cbn [contains] in H. apply orb_false_iff in H. destruct H as [_ H]. exact H. Qed.
 Lemma good_cons : forall c r, good (c :: r) = true -> chok c = true /\ good r = true.
 Proof.
   intros c r H. unfold good in *. cbn [forallb] in H.
-  apply andb_true_iff in H. destruct H as [H H3]. apply andb_true_iff in H. destruct H as [H H2].
+  apply andb_true_iff in H. destruct H as [H H3].
   apply andb_true_iff in H. destruct H as [H0 H1]. split; [exact H0|].
-  rewrite H1. apply negb_true_iff in H2. apply negb_true_iff in H3.
-  rewrite (hcl_tl _ _ H2), (contains_tl _ _ _ H3). reflexivity.
+  rewrite H1. apply negb_true_iff in H3.
+  rewrite (contains_tl _ _ _ H3). reflexivity.
 Qed.
 Lemma good_app_r : forall l r, good (l ++ r) = true -> good r = true.
 Proof. induction l as [|x l IH]; intros r H; [exact H|]. apply IH. cbn [app] in H. apply good_cons in H. tauto. Qed.
@@ -782,18 +803,7 @@ Proof.
   - destruct (x =? 46); rewrite IH; reflexivity.
 Qed.
 
-(* no ':' of a based literal after an integer *)
-Lemma no_colon_after : forall i x y, i <> [] -> forallb int_char i = true ->
-  has_colon_literal (i ++ 58 :: x :: y) = false -> letter_or_digit x = false.
-Proof.
-  induction i as [|a i IH]; intros x y Hne Hall H; [congruence|]. cbn [forallb] in Hall. apply andb_true_iff in Hall.
-  destruct Hall as [Ha Hall]. destruct i as [|b i].
-  - cbn [app has_colon_literal] in H. apply orb_false_iff in H. destruct H as [H _]. rewrite Ha in H.
-    change (58 =? 58) with true in H. cbn [andb] in H. exact H.
-  - apply (IH x y); [discriminate|exact Hall|]. eapply hcl_tl. exact H.
-Qed.
-Lemma good_no_colon : forall r, good r = true -> has_colon_literal r = false.
-Proof. intros r H. unfold good in H. destruct (has_colon_literal r); [|reflexivity]. rewrite andb_false_r in H. discriminate. Qed.
+
 
   Lemma span_int_of_Q : forall stp r, forallb int_char (fst (span (Qint stp) r)) = true ->
     (forall x, int_char x = true -> Qint stp x = true) -> span int_char r = span (Qint stp) r.
@@ -1199,11 +1209,19 @@ Section Literals.
       + unfold ret in FR. injection FR as _ <-. exact HA.
   Qed.
 
-  Lemma abs_based_spec : forall p0 pai ini st1 r1 k v st', At st1 (35 :: r1) ->
-    abs_based d F p0 pai ini st1 = (Ok (k, v), st') ->
-    exists t r', based_rest 35 r1 = Some (t, r') /\ At st' r' /\ k = KAbstractLiteral.
+  Lemma colon_starts_flat : forall st r1, At st (58 :: r1) ->
+    colon_starts_based_literal d st = (Ok (match r1 with x :: _ => letter_or_digit x | [] => false end), st).
   Proof.
-    intros p0 pai ini st1 r1 k v st' HA1 H. unfold abs_based in H.
+    intros st r1 HA. unfold colon_starts_based_literal, colon_lookahead, bind, try.
+    rewrite (skip_cons d HD _ _ _ HA). rewrite (peek_flat d HD _ _ (at_skip d HD _ _ _ HA)).
+    destruct r1 as [|x r2]; reflexivity.
+  Qed.
+
+  Lemma abs_based_spec : forall dl p0 pai ini st1 r1 k v st', At st1 (dl :: r1) ->
+    abs_based d F dl p0 pai ini st1 = (Ok (k, v), st') ->
+    exists t r', based_rest dl r1 = Some (t, r') /\ At st' r' /\ k = KAbstractLiteral.
+  Proof.
+    intros dl p0 pai ini st1 r1 k v st' HA1 H. unfold abs_based in H.
     bok H x st2 OR. destruct x as [base bt]. destruct (of_result_ok _ _ _ _ _ OR) as [-> ->].
     bok H u st2 S. rewrite (skip_cons d HD _ _ _ HA1) in S. injection S as _ <-.
     pose proof (at_skip d HD _ _ _ HA1) as HA2.
@@ -1214,12 +1232,12 @@ Section Literals.
     rewrite based_rest_unf. rewrite (span_pair ident_char r1). rewrite (surjective_pairing (frac_split _)).
     destruct (snd (frac_split (snd (span ident_char r1)))) as [|x2 r3]; cbn [hd_error opt_is] in H;
       [bok H e st6 GP; discriminate|].
-    destruct (x2 =? 35) eqn:E35; [|bok H e st6 GP; discriminate]. apply N.eqb_eq in E35. subst x2.
+    destruct (x2 =? dl) eqn:E35; [|bok H e st6 GP; discriminate]. apply N.eqb_eq in E35. subst x2.
     bok H u2 st5 S2. rewrite (skip_cons d HD _ _ _ HA4) in S2. injection S2 as _ <-.
     pose proof (at_skip d HD _ _ _ HA4) as HA5.
     bok H y st6 OR2. destruct y as [iv it]. destruct (of_result_ok _ _ _ _ _ OR2) as [-> ->].
     bok H ftxt st6 FT.
-    assert (st6 = skip_char st4 35).
+    assert (st6 = skip_char st4 dl).
     { destruct fres as [r|].
       - bok FT z st7 OR3. destruct z as [fv ft]. destruct (of_result_ok _ _ _ _ _ OR3) as [_ ->].
         unfold ret in FT. injection FT as _ <-. reflexivity.
@@ -1244,7 +1262,7 @@ Section Literals.
           destruct ((base ^ ev <? TWO64) && (base ^ ev * iv <? TWO64)); [|discriminate].
           unfold ret, lit_int in H. injection H as <- _ <-. auto.
         + unfold ret, lit_int in H. injection H as <- _ <-. auto. }
-    destruct Hfin as [-> ->]. change (35 =? 35) with true. cbv iota.
+    destruct Hfin as [-> ->]. cbv iota.
     destruct (exponent r3) as [e r4]. cbn [snd] in HA7. eexists _, _. split; [reflexivity|]. split; [exact HA7|reflexivity].
   Qed.
 
@@ -1286,7 +1304,8 @@ Section Literals.
     assert (Hplain : forall r, snd (span (Qint true) s) = r ->
               match r with
               | c0 :: r1 => (c0 =? 46) = false /\ (c0 =? 35) = false /\ LexGrammar.is_e c0 = false /\
-                            bs1 c0 = false /\ bs2a c0 = false
+                            bs1 c0 = false /\ bs2a c0 = false /\
+                            (c0 =? 58) && (match r1 with x :: _ => letter_or_digit x | [] => false end) = false
               | [] => True
               end ->
               abs_plain ini st1 = (Ok (k, v), st') ->
@@ -1296,11 +1315,7 @@ Section Literals.
       destruct (Hsp iv it eq_refl) as [E1 E2]. rewrite <- E1 in Er, HA1.
       assert (Eal : abstract_literal s = Some (fst (span int_char s), r)).
       { rewrite (abstract_literal_unf s _ _ (span_pair int_char s)), Er. destruct r as [|c0 r1]; [reflexivity|].
-        destruct Hc as [H1 [H2 [H3 [H4 H5]]]]. rewrite H1, H2, H3. cbn [orb].
-        destruct (c0 =? 58) eqn:E58; [|reflexivity]. apply N.eqb_eq in E58. subst c0. cbn [andb].
-        destruct r1 as [|x y]; [reflexivity|].
-        rewrite (no_colon_after (fst (span int_char s)) x y Hne Hi); [reflexivity|].
-        apply good_no_colon. rewrite <- Er, <- span_app. apply (at_good d _ _ HA). }
+        destruct Hc as [H1 [H2 [H3 [H4 [H5 H6]]]]]. rewrite H1, H2, H3, H6. reflexivity. }
       rewrite (number_unf s _ _ Eal), Hi.
       assert (Ebs : base_spec_len r = None).
       { destruct r as [|c0 r1]; [reflexivity|]. apply base_spec_len_none; tauto. }
@@ -1337,22 +1352,36 @@ Section Literals.
       { rewrite (exponent_e c0 r1 He). cbn [fst]. apply forallb_mid_false. unfold LexGrammar.is_e in He.
         unfold int_char, digit, in_rng. lia. }
       rewrite Enot. eexists _, _. split; [reflexivity|]. split; [exact HA4|left; reflexivity]. }
+    assert (Hbased : forall dl, c0 = dl -> dl = 35 \/ dl = 58 ->
+              (dl =? 35) || (dl =? 58) && (match r1 with x :: _ => letter_or_digit x | [] => false end) = true ->
+              abs_based d F dl (r_pos st) (r_pos st1) ini st1 = (Ok (k, v), st') ->
+              exists t r', number s = Some (t, r') /\ At st' r' /\ (k = KAbstractLiteral \/ k = KBitString)).
+    { intros dl -> Hdl Hcond HB.
+      assert (Ei : exists iv it, ini = inl (iv, it)).
+      { destruct ini as [[iv it]|e]; [eauto|]. unfold abs_based in HB. bok HB x st3 OR. discriminate. }
+      destruct Ei as [iv [it ->]]. destruct (Hsp iv it eq_refl) as [E1 E2]. rewrite <- E1 in Eqr.
+      destruct (abs_based_spec _ _ _ _ _ _ _ _ _ HA1 HB) as [t [r' [Eb [HA' ->]]]].
+      assert (Eal : abstract_literal s = Some (fst (span int_char s) ++ dl :: t, r')).
+      { rewrite (abstract_literal_unf s _ _ (span_pair int_char s)), <- Eqr.
+        replace (dl =? 46) with false by (destruct Hdl; subst dl; reflexivity). rewrite Hcond, Eb. reflexivity. }
+      rewrite (number_unf s _ _ Eal).
+      rewrite (forallb_mid_false int_char (fst (span int_char s)) dl t) by (destruct Hdl; subst dl; reflexivity).
+      eexists _, _. split; [reflexivity|]. split; [exact HA'|left; reflexivity]. }
     destruct (lowercase c0 =? 35) eqn:L35.
     { (* based literal *)
-      rewrite lc_eqb_small in L35 by lia. apply N.eqb_eq in L35. subst c0.
-      assert (Ei : exists iv it, ini = inl (iv, it)).
-      { destruct ini as [[iv it]|e]; [eauto|]. unfold abs_based in H. bok H x st3 OR. discriminate. }
-      destruct Ei as [iv [it ->]]. destruct (Hsp iv it eq_refl) as [E1 E2]. rewrite <- E1 in Eqr.
-      destruct (abs_based_spec _ _ _ _ _ _ _ _ HA1 H) as [t [r' [Eb [HA' ->]]]].
-      assert (Eal : abstract_literal s = Some (fst (span int_char s) ++ 35 :: t, r')).
-      { rewrite (abstract_literal_unf s _ _ (span_pair int_char s)), <- Eqr.
-        change (35 =? 46) with false. change (35 =? 35) with true. cbn [orb]. rewrite Eb. reflexivity. }
-      rewrite (number_unf s _ _ Eal).
-      rewrite (forallb_mid_false int_char (fst (span int_char s)) 35 t eq_refl).
-      eexists _, _. split; [reflexivity|]. split; [exact HA'|left; reflexivity]. }
+      rewrite lc_eqb_small in L35 by lia. apply N.eqb_eq in L35.
+      eapply (Hbased 35 L35); [left; reflexivity|reflexivity|exact H]. }
     assert (Hc46 : (c0 =? 46) = false) by (rewrite <- (lc_eqb_small c0 46) by lia; exact L46).
     assert (Hc35 : (c0 =? 35) = false) by (rewrite <- (lc_eqb_small c0 35) by lia; exact L35).
     assert (Hce : LexGrammar.is_e c0 = false) by (rewrite is_e_lc; exact L101).
+    destruct (lowercase c0 =? 58) eqn:L58.
+    { (* ':' : a based literal when a letter or digit follows *)
+      rewrite lc_eqb_small in L58 by lia. apply N.eqb_eq in L58.
+      bok H bb st3 CS. rewrite L58 in HA1. rewrite (colon_starts_flat _ _ HA1) in CS. injection CS as <- <-.
+      destruct (match r1 with x :: _ => letter_or_digit x | [] => false end) eqn:Elod.
+      - eapply (Hbased 58 L58); [right; reflexivity|reflexivity|exact H].
+      - eapply Hplain; [reflexivity| |exact H]. subst c0. rewrite Elod. repeat split; reflexivity. }
+    assert (Hc58 : (c0 =? 58) = false) by (rewrite <- (lc_eqb_small c0 58) by lia; exact L58).
     destruct (is_bs_letter (lowercase c0)) eqn:Lbs.
     { (* bit string with length *)
       unfold abs_bit_string in H. bok H x st3 OR. destruct x as [iv it]. destruct (of_result_ok _ _ _ _ _ OR) as [-> ->].
@@ -1361,13 +1390,12 @@ Section Literals.
       destruct (parse_base_specifier_flat d HD F HF _ _ HA1) as [res [st3' [E Hm]]]. rewrite E in PB. injection PB as -> <-.
       assert (Eal : abstract_literal s = Some (fst (span int_char s), c0 :: r1)).
       { rewrite (abstract_literal_unf s _ _ (span_pair int_char s)), <- Eqr. rewrite Hc46, Hc35, Hce. cbn [orb].
-        rewrite bs_letter_lc, bs1_lc, bs2a_lc in Lbs.
-        replace (c0 =? 58) with false; [reflexivity|]. symmetry. apply N.eqb_neq. intro E58. subst c0. discriminate. }
+        rewrite Hc58. reflexivity. }
       rewrite (number_unf s _ _ Eal), Hi.
       destruct (base_spec_len (c0 :: r1)) as [n|]; [|discriminate]. destruct Hm as [_ HA3].
       destruct (parse_bit_string_inv _ _ _ _ _ _ _ _ HA3 H) as [body [r' [Eq [HA' ->]]]]. rewrite Eq.
       eexists _, _. split; [reflexivity|]. split; [exact HA'|right; reflexivity]. }
-    eapply Hplain; [reflexivity| |exact H]. rewrite bs_letter_lc in Lbs. apply orb_false_iff in Lbs. tauto.
+    eapply Hplain; [reflexivity| |exact H]. rewrite bs_letter_lc in Lbs. apply orb_false_iff in Lbs. cbv beta iota. rewrite Hc58. tauto.
   Qed.
 End Literals.
 
@@ -2097,20 +2125,20 @@ Proof.
   rewrite after_idx_0. reflexivity.
 Qed.
 Lemma good_of_quantifier : forall s, latin1 s = true -> no_directive s = true -> no_pragma s = true -> no_cr s = true ->
-  has_colon_literal s = false -> good s = true.
+  good s = true.
 Proof.
-  intros s H1 H2 H3 H4 H5. unfold good. rewrite H5. unfold no_pragma in H3. rewrite H3. rewrite !andb_true_r.
-  unfold latin1, no_directive, no_cr in *. clear H3 H5. induction s as [|c s IH]; [reflexivity|].
+  intros s H1 H2 H3 H4. unfold good. unfold no_pragma in H3. rewrite H3. rewrite !andb_true_r.
+  unfold latin1, no_directive, no_cr in *. clear H3. induction s as [|c s IH]; [reflexivity|].
   cbn [forallb] in *. apply andb_true_iff in H1, H2, H4. destruct H1 as [A1 B1]. destruct H2 as [A2 B2]. destruct H4 as [A4 B4].
   rewrite (IH B1 B2 B4). unfold chok. rewrite A1, A2, A4. reflexivity.
 Qed.
 
 Theorem lang_is_spec : forall s : list N,
   latin1 s = true -> clean_lang s = true -> no_directive s = true -> no_pragma s = true ->
-  no_cr s = true -> has_colon_literal s = false ->
+  no_cr s = true ->
   lexemes_lang s = split_spec LangLexer.keywords_2008 s.
 Proof.
-  intros s H1 Hc H2 H3 H4 H5.
+  intros s H1 Hc H2 H3 H4.
   pose proof (split_cdoc s) as HD.
   assert (HF : (length (concat (split_lines s)) < lex_fuel s)%nat).
   { pose proof (split_lines_length s). unfold lex_fuel. lia. }
@@ -2126,16 +2154,17 @@ Proof.
 Qed.
 
 (* the hypotheses are satisfiable by a non-trivial text:
-   x <= 16#F.8#e1 & b"01" & 12o"7" & '1' ; -- c LF /* y */ z'a(1.5e-3)\e\"s""t" ?/= all'x *)
-Definition lang_is_spec_sample : list N := [120; 32; 60; 61; 32; 49; 54; 35; 70; 46; 56; 35; 101; 49; 32; 38; 32; 98; 34; 48; 49; 34; 32; 38; 32; 49; 50; 111; 34; 55; 34; 32; 38; 32; 39; 49; 39; 32; 59; 32; 45; 45; 32; 99; 10; 47; 42; 32; 121; 32; 42; 47; 32; 122; 39; 97; 40; 49; 46; 53; 101; 45; 51; 41; 92; 101; 92; 34; 115; 34; 34; 116; 34; 32; 63; 47; 61; 32; 97; 108; 108; 39; 120].
+   x <= 16#F.8#e1 & b"01" & 12o"7" & '1' ; -- c LF /* y */ z'a(1.5e-3)\e\"s""t" ?/= all'x 16:FF: 0 to 1:= 1
+   (it holds the based literal 16:FF: with ':' for '#', and `1:= 1` where the ':' after a digit is a delimiter) *)
+Definition lang_is_spec_sample : list N := [120; 32; 60; 61; 32; 49; 54; 35; 70; 46; 56; 35; 101; 49; 32; 38; 32; 98; 34; 48; 49; 34; 32; 38; 32; 49; 50; 111; 34; 55; 34; 32; 38; 32; 39; 49; 39; 32; 59; 32; 45; 45; 32; 99; 10; 47; 42; 32; 121; 32; 42; 47; 32; 122; 39; 97; 40; 49; 46; 53; 101; 45; 51; 41; 92; 101; 92; 34; 115; 34; 34; 116; 34; 32; 63; 47; 61; 32; 97; 108; 108; 39; 120; 32; 49; 54; 58; 70; 70; 58; 32; 48; 32; 116; 111; 32; 49; 58; 61; 32; 49].
 Example lang_is_spec_hyps_sat :
   latin1 lang_is_spec_sample && clean_lang lang_is_spec_sample && no_directive lang_is_spec_sample &&
-  no_pragma lang_is_spec_sample && no_cr lang_is_spec_sample && negb (has_colon_literal lang_is_spec_sample) = true
-  /\ option_map (@length lexeme) (lexemes_lang lang_is_spec_sample) = Some 22%nat.
+  no_pragma lang_is_spec_sample && no_cr lang_is_spec_sample && has_colon_literal lang_is_spec_sample = true
+  /\ option_map (@length lexeme) (lexemes_lang lang_is_spec_sample) = Some 28%nat.
 Proof. vm_compute. split; reflexivity. Qed.
 
 Check lang_is_spec : forall s : list N,
   latin1 s = true -> clean_lang s = true -> no_directive s = true -> no_pragma s = true ->
-  no_cr s = true -> has_colon_literal s = false ->
+  no_cr s = true ->
   lexemes_lang s = split_spec LangLexer.keywords_2008 s.
 Print Assumptions lang_is_spec.
